@@ -37,6 +37,13 @@ type multiClusterTokenReviewAuthenticator struct {
 	caches         sync.Map
 }
 
+// hostTokenCache is the token cache of a host, bound to the cluster that served
+// the host when the cache was filled
+type hostTokenCache struct {
+	cluster *clusters.ClusterInfo
+	token   authenticator.Token
+}
+
 func NewMultiClusterTokenReviewAuthenticator(clientProvider clusters.ClientProvider, tokenSuccessCacheTTL, tokenFailureCacheTTL time.Duration, implicitAuds authenticator.Audiences) authenticator.Token {
 	return &multiClusterTokenReviewAuthenticator{
 		tokenSuccessCacheTTL: tokenSuccessCacheTTL,
@@ -65,20 +72,30 @@ func (a *multiClusterTokenReviewAuthenticator) AuthenticateToken(ctx context.Con
 		tokenAuth = a.authenticateTokenForHost(host)
 	} else {
 		// split cache by host
-		cache, loaded := a.caches.Load(host)
-		if !loaded {
+		var hostCache *hostTokenCache
+		if c, loaded := a.caches.Load(host); loaded {
+			hostCache = c.(*hostTokenCache)
+		}
+		if hostCache == nil || hostCache.cluster != cluster {
+			// no cache for this host yet, or the host is served by another cluster now:
+			// results obtained from the previous cluster must not be reused
 			// use token cache, if no cache is hit, authenticateToken() will be called
 			// tokencache use a new context inheriting from context.Background() without all value of req.Context.
-			cache, loaded = a.caches.LoadOrStore(host, tokencache.New(a.authenticateTokenForHost(host), false, a.tokenSuccessCacheTTL, a.tokenFailureCacheTTL))
-			// destry cache when cluster stopped
-			if !loaded {
-				go func() {
-					<-cluster.Context().Done()
-					a.caches.Delete(host)
-				}()
+			hostCache = &hostTokenCache{
+				cluster: cluster,
+				token:   tokencache.New(a.authenticateTokenForHost(host), false, a.tokenSuccessCacheTTL, a.tokenFailureCacheTTL),
 			}
+			a.caches.Store(host, hostCache)
+			// destry cache when cluster stopped
+			created := hostCache
+			go func() {
+				<-cluster.Context().Done()
+				if c, ok := a.caches.Load(host); ok && c.(*hostTokenCache) == created {
+					a.caches.Delete(host)
+				}
+			}()
 		}
-		tokenAuth = cache.(authenticator.Token)
+		tokenAuth = hostCache.token
 	}
 	return tokenAuth.AuthenticateToken(ctx, token)
 }
